@@ -113,13 +113,9 @@ func EncryptStreamTo[E typez.StrOrBytes](out io.Writer, stream io.Reader, secret
 func DecryptStreamTo[E typez.StrOrBytes](out io.Writer, stream io.Reader, secret E) error {
 	saltHeader := make([]byte, aes.BlockSize)
 
-	n, err := stream.Read(saltHeader)
+	_, err := io.ReadFull(stream, saltHeader)
 	if err != nil {
 		return fmt.Errorf("read header error: %w", err)
-	}
-
-	if n != aes.BlockSize {
-		return fmt.Errorf("read header less error: n=%d", n)
 	}
 
 	if !bytes.Equal(saltHeader[:8], fixedSaltHeader) {
